@@ -222,4 +222,43 @@ example : respSpec true 3 (some ⟨3, 9, List.replicate 40 (.int 0)⟩) 5 4 6 (s
     .done 2 [("SetHighWatermark", [.int 4]), ("AppendMessageSet", [.list (List.replicate 40 (.int 0))]), ("SetHighWatermark", [.int 6])] := by
   simp [respSpec, imin]
 
+/-! ### the leader answering "where does epoch e end in your log" (the follower truncates to the answer) -/
+
+@[simp] theorem lk_hlo : evalE.lookup' "handleLeaderOffsetRequest" prog = some fn_partition_handleLeaderOffsetRequest := by simp [prog, gomini]
+@[simp] theorem lk_unlo : evalE.lookup' "proto.UnmarshalLeaderEpochOffsetRequest" prog = none := by simp [prog, gomini]
+@[simp] theorem lk_mlo : evalE.lookup' "proto.MarshalLeaderEpochOffsetResponse" prog = none := by simp [prog, gomini]
+@[simp] theorem lk_lofle : evalE.lookup' "LastOffsetForLeaderEpoch" prog = none := by simp [prog, gomini]
+@[simp] theorem lk_respond : evalE.lookup' "Respond" prog = none := by simp [prog, gomini]
+
+/-- un-marshalling answers the epoch asked for or an error; the log answers `endOf epoch`; marshalling answers the record it
+was given (so that the response can be read off the `Respond` call) or an error -/
+def offExt (req : Option Int) (endOf : Int → Int) (marshalOk : Bool) : Ext := fun f args _ =>
+  if f = "proto.UnmarshalLeaderEpochOffsetRequest" then
+    match req with
+    | some e => some (.tup [.struct [("LeaderEpoch", .int e)], .nil])
+    | none => some (.tup [.nil, .str "unmarshal error"])
+  else if f = "LastOffsetForLeaderEpoch" then
+    match args with
+    | [_, .int e] => some (.int (endOf e))
+    | _ => none
+  else if f = "proto.MarshalLeaderEpochOffsetResponse" then
+    match args with
+    | [r] => if marshalOk then some (.tup [r, .nil]) else some (.tup [.nil, .str "marshal error"])
+    | _ => none
+  else none
+
+/-- the responses sent (`none` for a panic) -/
+def responses : R Out → Option (List (List Val))
+  | .ok o => some ((o.eff.filter fun e => e.1 = "Respond").map (·.2))
+  | _ => none
+
+theorem go_handleLeaderOffsetRequest (req : Option Int) (endOf : Int → Int) :
+    responses (runG prog (offExt req endOf true) 30 "handleLeaderOffsetRequest"
+        (some (.struct [("log", logV)])) [.struct [("Data", .list []), ("kind", .str "msg")]] []) =
+      some (match req with
+        | none => []
+        | some e => [[.struct [("EndOffset", .int (endOf e))]]]) := by
+  cases req <;>
+    simp [runG, fn_partition_handleLeaderOffsetRequest, gomini, responses, offExt, builtin, lookup, getField, binVal, isNil, truthy, logV]
+
 end Liftbridge.Props.GoReplication
